@@ -9,6 +9,8 @@ Engine A over flat inputs.  Families:
                 arguments left alone, second call on the same object agrees
   fft-dtype     fft / ifft on every input dtype (bool, u/int8..64, float16..64, complex64/128) x
                 complex_dtype omitted / complex64 / complex128: precision and dtype of the result
+  poly-subst    symbolic coefficients on every support, every subset substituted by 0 / 2 with
+                SubstitutionMapper, read back in an environment that exposes left-overs
   poly-container  Polynomial data handed over as tuple / list / generator / iterator / map /
                 dict view / via general_polynomial(): same polynomial, alone and as an operand
   fft-history   every sequence of two (thorough: also three) fft calls over {complex64,
@@ -89,6 +91,12 @@ FFT_DTYPE_LENGTHS = {"quick": (1, 2, 3, 4, 6, 8, 12, 16),
 # containers the (exponent, coefficient) pairs are handed to Polynomial(...) in
 POLY_CONTAINERS = ("tuple", "list", "genexpr", "iter", "map", "dict-items", "general_polynomial")
 POLY_CONTAINER_DEG = {"quick": 2, "thorough": 4}
+# constant-rewriting mappers: every non-empty subset of a polynomial's distinct coefficient values
+# is sent to each of these targets (0 = the term vanishes), everything else stays the same object
+MAP_REWRITE_TARGETS = (0, 3)
+# symbolic coefficients a_e on every support within 0..deg; every subset of them substituted
+SUBST_DEG = {"quick": 3, "thorough": 5}
+SUBST_VALUES = (0, 2)
 
 SORTUNIQ_MAX_LEN = {"quick": 4, "thorough": 5}
 SORTUNIQ_EXPS = (0, 1, 2)
@@ -505,6 +513,13 @@ def _mapper(name):
             def map_constant(self, expr):
                 return 3 if expr == 2 else expr
         return TwoToThree()
+    if name.startswith("set:"):
+        values, target = _parse_rewrite(name)
+
+        class Rewrite(IdentityMapper):
+            def map_constant(self, expr):
+                return target if expr in values else expr
+        return Rewrite()
 
     class Rename(IdentityMapper):
         def map_variable(self, expr):
@@ -512,7 +527,26 @@ def _mapper(name):
     return Rename()
 
 
+def _parse_rewrite(name):
+    """'set:-1,2>0' -> ({-1, 2}, 0)"""
+    vals, target = name[4:].split(">")
+    return {int(v) for v in vals.split(",")}, int(target)
+
+
+def rewrite_names(a):
+    """Every rewriting 'all coefficients with a value in Z become t' for the non-empty subsets Z
+    of the distinct coefficient values of *a* and the targets MAP_REWRITE_TARGETS."""
+    vals = sorted({c for _, c in a})
+    for k in range(1, len(vals) + 1):
+        for z in itertools.combinations(vals, k):
+            for t in MAP_REWRITE_TARGETS:
+                yield "set:" + ",".join(map(str, z)) + f">{t}"
+
+
 def _mapped_ref(name, qp):
+    if name.startswith("set:"):
+        values, target = _parse_rewrite(name)
+        return QPoly((e, target if c in values else c) for e, c in qp.terms())
     if name == "double":
         return qp.scale(2)
     if name == "two2three":
@@ -534,6 +568,50 @@ def check_mapped(name, obj, qp):
         return [("inexact", str(e))]
     if got != _mapped_ref(name, qp):
         return [("wrong", f"mapper {name} on {qp}: expected {_mapped_ref(name, qp)} got {got}")]
+    return []
+
+
+def probe_subst(support, zeroed, value):
+    """Polynomial with symbolic coefficients a_e (e in support); SubstitutionMapper replaces the
+    a_e with e in *zeroed* by *value*.  The result, read in an environment where every a_e is
+    e + 5 (so a left-over a_e shows), must be the polynomial with those coefficients replaced."""
+    from pymbolic import var
+    from pymbolic.mapper.evaluator import EvaluationMapper
+    from pymbolic.mapper.substitutor import SubstitutionMapper, make_subst_func
+    from pymbolic.polynomial import Polynomial
+    from pymbolic.primitives import Variable
+    _tick()
+    poly = Polynomial(X(), tuple((e, var(f"a{e}")) for e in support))
+    env = {f"a{e}": e + 5 for e in support}
+    expected = QPoly((e, value if e in zeroed else e + 5) for e in support)
+    try:
+        res = SubstitutionMapper(make_subst_func({f"a{e}": value for e in zeroed}))(poly)
+    except Exception as e:  # noqa: BLE001
+        return [("raises:" + excname(e), repr(e))]
+    if not isinstance(res, Polynomial) or res.base != X():
+        return [("inexact", f"result {res!r}")]
+    terms = []
+    for e, c in res.data:
+        if isinstance(c, Variable) and c.name in env:
+            terms.append((e, env[c.name]))
+        elif isinstance(c, int) and not isinstance(c, bool):
+            terms.append((e, c))
+        else:
+            return [("inexact", f"coefficient {c!r}")]
+    if QPoly(terms) != expected:
+        return [("wrong", f"a_e -> {value} for e in {list(zeroed)}: result Data {res.data!r} "
+                 f"reads (a_e = e+5) as {QPoly(terms)}, expected {expected}")]
+    for pt in POINTS:
+        if not isinstance(pt, int):
+            continue        # symbolic intermediate results: Fraction is not a pymbolic constant
+        _tick()
+        ctx = dict(env, x=pt)
+        try:
+            v = EvaluationMapper(ctx)(EvaluationMapper(ctx)(res))
+        except Exception as e:  # noqa: BLE001
+            return [("evaluate-raises:" + excname(e), f"at x={pt}: {e!r}")]
+        if not same_number(v, expected.value(pt)):
+            return [("evaluate", f"at x={pt}, a_e=e+5: expected {expected.value(pt)} got {v!r}")]
     return []
 
 
@@ -1111,6 +1189,7 @@ PROBES = {
     "pow": (probe_pow, ("fixed", "poly", "scalar")),
     "scalar": (probe_scalar, ("fixed", "fixed", "poly", "scalar")),
     "map": (probe_map, ("fixed", "poly")),
+    "subst": (probe_subst, ("fixed", "fixed", "fixed")),
     "eval": (probe_eval, ("fixed", "poly", "scalar")),
     "euclid-int": (probe_euclid_int, ("scalar", "scalar")),
     "euclid-poly": (probe_euclid_poly, ("fixed", "poly", "poly")),
@@ -1246,7 +1325,9 @@ class C19(Check):
             "every sequence of 2 (thorough: also 3) fft calls over 4 input kinds x 2 signs at each "
             "history length, each from re-initialised module state; fft+/fft-/ifft on 14 input dtypes "
             "x 3 complex_dtype options at each dtype length; every small polynomial built from 7 "
-            "kinds of data container; Euclid/gcd/lcm on "
+            "kinds of data container; every subset of symbolic coefficients on every support "
+            "substituted by 0 or 2; constant-rewriting mappers sending every non-empty subset of a "
+            "polynomial's coefficient values to 0 or 3 (the rest stays the same object); Euclid/gcd/lcm on "
             "the full integer box and on every ordered pair of polynomials of degree <= 2 over "
             "{-1,0,1,2}; fft/ifft/sym_fft for EVERY length up to the bound on every unit vector "
             "(the transform is linear) and two dense vectors, both signs; the like-term merge on "
@@ -1291,6 +1372,11 @@ class C19(Check):
         "complex128 (the fallback the code documents); with complex_dtype given, or for complex "
         "input, the result must be accurate to that type's precision (1e-5 / 1e-9 relative to "
         "max(1, ||x||_1)); for length 1 the input itself is returned and no dtype is demanded",
+        "a mapper that rewrites coefficients (also to 0, also only the leading ones) must return "
+        "a polynomial denoting the rewritten polynomial; explicit zero coefficients in its Data are "
+        "accepted; symbolic results are read with a_e = e + 5, so that a coefficient that should "
+        "have been replaced shows in the value, and additionally through EvaluationMapper applied "
+        "twice (it does not evaluate coefficients)",
         "Polynomial(base, data) accepts any iterable of (exponent, coefficient) pairs (it stores "
         "tuple(data); general_polynomial passes a generator): every container kind must yield "
         "the same polynomial function",
@@ -1316,6 +1402,7 @@ class C19(Check):
             ("fft-history", lambda: self.gen_fft_history(tier)),
             ("fft-dtype", lambda: self.gen_fft_dtype(tier)),
             ("poly-container", lambda: self.gen_container(tier)),
+            ("poly-subst", lambda: self.gen_subst(tier)),
             ("euclid-int", lambda: self.gen_euclid_int(tier)),
             ("euclid-poly", self.gen_euclid_poly),
             ("fft", lambda: self.gen_fft(tier)),
@@ -1366,6 +1453,15 @@ class C19(Check):
                 for option in FFT_DTYPE_OPTIONS:
                     for fn in FFT_DTYPE_FNS:
                         yield ("probe", "fft-dtype", n, dtype, option, fn)
+
+    def gen_subst(self, tier):
+        exps = range(SUBST_DEG[tier] + 1)
+        for k in range(len(exps) + 1):
+            for support in itertools.combinations(exps, k):
+                for j in range(len(support) + 1):
+                    for zeroed in itertools.combinations(support, j):
+                        for value in SUBST_VALUES:
+                            yield ("probe", "subst", support, zeroed, value)
 
     def gen_container(self, tier):
         for p in all_polys(POLY_CONTAINER_DEG[tier], POLY_COEFFS[tier]):
@@ -1463,7 +1559,7 @@ class C19(Check):
                 report(r, "scalar", [op, dom, a, s])
         report(r, "scalar", ["mulbase", dom, a, 0])
         if dom == "Z":
-            for m in MAPPERS:
+            for m in (*MAPPERS, *rewrite_names(a)):
                 report(r, "map", [m, a])
             for entry in ENTRIES:
                 for pt in POINTS:
